@@ -41,7 +41,13 @@ func gen(t *rapid.T) sw.Scenario {
 		}
 		switch k := rapid.IntRange(0, 19).Draw(t, "op"); {
 		case k < 8:
-			sc.Ops = append(sc.Ops, sw.GenProduce(t, 35))
+			op := sw.GenProduce(t, 35)
+			if rapid.IntRange(0, 7).Draw(t, "diesinproduction") == 0 {
+				// the process dies between two durable writes of this production step
+				op.Kind = "produce-crash"
+				op.N = rapid.IntRange(0, 5).Draw(t, "dieat")
+			}
+			sc.Ops = append(sc.Ops, op)
 		case k < 13:
 			sc.Ops = append(sc.Ops, sw.Op{Kind: "tick", N: rapid.IntRange(1, 3).Draw(t, "nt")})
 		case k < 16:
